@@ -289,6 +289,8 @@ DISPATCH = {}
 
 def w_any(t):
     name, arg = t
+    if not DISPATCH:
+        DISPATCH.update(weight=w_weight, bytes=w_bytes, encode=w_encode, conf=w_conf, model=w_model, seq=w_seq)
     r = DISPATCH[name](arg)
     r["c"]["impl_calls_" + name] = r["c"].get("impl_calls_" + name, 0) + (0 if name == "model" else r["n"])
     return r
